@@ -12,6 +12,6 @@ package uuid
 //@   ensures nopanic
 //@   ensures len(result) == 36 && result[8] == '-' && result[13] == '-' && result[18] == '-' && result[23] == '-'
 //@   ensures forall j int :: 0 <= j && j < 16 ==> result[uuidPos(j)] == hexlc(int(u[j]) / 16) && result[uuidPos(j)+1] == hexlc(int(u[j]) % 16)
-//@   loop 1 invariant 0 <= i && i <= 16
-//@   loop 1 invariant forall j int :: 0 <= j && j < i ==> b[uuidPos(j)] == hexlc(int(u[j]) / 16) && b[uuidPos(j)+1] == hexlc(int(u[j]) % 16)
-//@   loop 1 decreases 16 - i
+//@   loop 1 invariant forall j int :: 0 <= j && j <= rangeindex ==> b[uuidPos(j)] == hexlc(int(u[j]) / 16) && b[uuidPos(j)+1] == hexlc(int(u[j]) % 16)
+//@   loop 1 split rangeindex in -1..15
+//@   loop 1 decreases 15 - rangeindex
